@@ -85,7 +85,8 @@ theorem rule_multiArc_retry_branch : ∀ MAX len,
 
 /-- the log channel wakes EVERY listed listener after EVERY publication, whatever the length -/
 theorem rule_multiMmapLog : ∀ MAX len,
-    evalChain MAX len (mainChain multiMmapLog_send) = some (some 0) ∧ evalChain MAX len (mainChain multiMmapLog_send_with) = some (some 0) := by
+    evalChain MAX len (mainChain multiMmapLog_send) = some (Rule.target .all MAX len) ∧
+    evalChain MAX len (mainChain multiMmapLog_send_with) = some (Rule.target .all MAX len) := by
   intro MAX len; exact ⟨rfl, rfl⟩
 
 /-- every send path the translator found is one of those the theorems above speak about (a new `wake_stream` site, or one
